@@ -284,6 +284,56 @@ def h_agree(e, cfg):
             e.oblige_eq("agree:depression", a[1], b[1], split=True, step=t)
 
 
+def h_cells(e, cfg):
+    """One trainer over TWO cells (two layers) called once per step with a reward scale != 1: every cell's parts equal those of a
+    single-cell trainer fed the same histories (nothing may be carried from one cell of the loop to the next)."""
+    import inferno.learn as learn
+    variant = cfg["variant"]
+    lr_pos, lr_neg = SIGNS[cfg["signs"]]
+    e.tag(variant=variant, claim="cells-independent")
+
+    def mk():
+        if variant in ("stdp", "triplet", "mstdp", "mstdpet"):
+            kw = dict(lr_post=lr_pos, lr_pre=lr_neg, tc_post=TC_POS, tc_pre=TC_NEG, batch_reduction=torch.sum)
+            if variant == "stdp":
+                return learn.STDP(**kw), "weight"
+            if variant == "mstdp":
+                return learn.MSTDP(**kw), "weight"
+            if variant == "mstdpet":
+                return learn.MSTDPET(tc_eligibility=10.0, **kw), "weight"
+            return learn.TripletSTDP(lr_pos, 0.3, lr_neg, 0.2, TC_POS, 40.0, TC_NEG, 30.0, batch_reduction=torch.sum), "weight"
+        return make_trainer(variant, lr_pos, lr_neg, "sum")
+    names = ("first", "second", "third")[: cfg["ncells"]]
+    multi, param = mk()
+    singles, Lm, Ls = {}, {}, {}
+    for nm in names:
+        Lm[nm], Ls[nm] = build(e, cfg), build(e, cfg)
+        multi.register_cell(nm, Lm[nm][0].cell)
+        singles[nm] = mk()[0]
+        singles[nm].register_cell("c", Ls[nm][0].cell)
+    reward = variant in ("mstdp", "mstdpet", "da-mstdp", "da-mstdpd")
+    for t in range(cfg["T"]):
+        for i, nm in enumerate(names):
+            x = e.sym((cfg["B"], 2), torch.bool, f"pre{nm}{t}", ind=True)
+            y = e.sym((cfg["B"], 2), torch.bool, f"post{nm}{t}", ind=True)
+            d = e.sym(tuple(Lm[nm][1].delay.shape), torch.float32, f"d{nm}{t}", lo=0, hi=min(K(cfg.get("maxdelay", 3 * cfg["dt"])), F(cfg.get("maxdelay", 3 * cfg["dt"]))))
+            for (layer, conn, neuron) in (Lm[nm], Ls[nm]):
+                conn.delay = d.clone()
+                neuron.script.append(y)
+                layer(x)
+        args = (cfg["signal"], cfg["scale"]) if reward else ()
+        multi(*args)
+        for nm in names:
+            singles[nm](*args)
+            am, as_ = getattr(Lm[nm][1].updater, param), getattr(Ls[nm][1].updater, param)
+            for part in ("pos", "neg"):
+                gm, gs = getattr(am, part), getattr(as_, part)
+                e.oblige("cells:part-presence", (gm is None) == (gs is None), cell=nm, part=part, step=t)
+                if gm is not None and gs is not None:
+                    e.oblige_eq("cells:same-as-single-cell-trainer", gm, e.read(gs), split=True, cell=nm, part=part, step=t)
+            am.clear(); as_.clear()
+
+
 def checks(tier):
     th = tier == "thorough"
     form, agree = [], []
@@ -327,13 +377,17 @@ def checks(tier):
                 for delays in (("zero",) if pair[1] == "kernel" else ("symbolic", "zero")):
                     agree.append(dict(pair=pair, signs=signs, cell=cell, delays=delays, B=(2 if th else 1), reduction="sum", dt=1.3, T=Tn))
     o = {"div_policy": "xr", "query_timeout_ms": 120000, "max_paths": 5000}
-    return [Check("formula", h_formula, form, opts=o, timeout_s=1800), Check("agreement", h_agree, agree, opts=o, timeout_s=1800)]
+    cells = [dict(variant=v, signs=sg, cell="dense", B=1, dt=1.3, T=2, ncells=(3 if th else 2), signal=-0.75, scale=0.25, reduction="sum")
+             for v in ("da-stdp", "da-stdpd", "da-kernel", "da-kerneld", "da-mstdp", "da-mstdpd", "stdp", "triplet", "mstdp", "mstdpet")
+             for sg in (("hebbian", "depressive") if th else ("hebbian",))]
+    return [Check("formula", h_formula, form, opts=o, timeout_s=1800), Check("agreement", h_agree, agree, opts=o, timeout_s=1800),
+            Check("cells_independent", h_cells, cells, opts=o, timeout_s=1800)]
 
 
 BOUNDS = {
     "quick": {"variants": ["DelayAdjustedSTDP", "DelayAdjustedSTDPD", "DelayAdjustedKernelSTDP", "DelayAdjustedKernelSTDPD", "DelayAdjustedMSTDP", "DelayAdjustedMSTDPD", "KernelSTDP"],
               "T": 3, "cells": ["dense 2x2", "direct 2", "Conv2D 2x2 input / 1x2 kernel / 1 filter (2 output locations per weight)"], "delays": "symbolic reals in [0, 3dt] per synapse, re-assigned each step for the delay-learning variants; or all zero",
-              "sign modes": "4, also as per-cell overrides of a trainer constructed with another sign mode", "batch": [1, 2], "signal": "scalar +/-, per-sample symbolic"},
+              "cells_independent": "one trainer over 2 cells (10 trainer classes, reward scale 0.25) against single-cell trainers, T=2", "sign modes": "4, also as per-cell overrides of a trainer constructed with another sign mode", "batch": [1, 2], "signal": "scalar +/-, per-sample symbolic"},
     "thorough": {"T": 4, "dt": [1.0, 1.3], "reductions": ["sum", "mean"]},
 }
 OUTSIDE = ["exp is uninterpreted with instantiated monotonicity/product axioms; identical terms on both sides for the formula checks", "lateral cells; conv cells beyond 2x3 input / 2 filters",
